@@ -211,5 +211,8 @@ def run(ctx):
              + rule_fill(ctx, fr, ctx.func('sess', 'SessionManager.tx_hashes_at_blockheight'), 'self._tx_hashes_cache', 'C10.FILL'), 2)
     ctx.rule('C10.SIGNAL', lambda: rule_signal(ctx), 5)
     ctx.rule('C10.BYHEIGHT', lambda: rule_byheight(ctx), 2)
+    # id-from-position with merkle=True answers from the by-height caches: their fills must be fresh too
+    from . import c11
+    ctx.rule('C10.CACHES', lambda: c11.rule_cachefill(ctx, 'C10.CACHES'), 4)
     from . import c03
     ctx.rule('C10.TOUCHED', lambda: c03.rule_touched(ctx, 'C10.TOUCHED'), 4)
